@@ -98,7 +98,7 @@ class CenterOfMassOriginModel(AutoSerialize):
     ):
         """ """
         nqx, nqy = self.dataset.shape[-2:]
-        tensor_3d = self.tensor.view((-1, nqx, nqy))
+        tensor_3d = self.tensor.reshape((-1, nqx, nqy))
 
         qx = torch.arange(nqx, dtype=torch.float, device=self.device)
         qy = torch.arange(nqy, dtype=torch.float, device=self.device)
@@ -238,7 +238,7 @@ class CenterOfMassOriginModel(AutoSerialize):
         origin_fitted = self.origin_fitted
         H, W = self.dataset.shape[-2:]
 
-        tensor_3d = self.tensor.view((-1, 1, H, W))
+        tensor_3d = self.tensor.reshape((-1, 1, H, W))
         shifted_tensor_3d = torch.empty_like(tensor_3d)
         coordinate = torch.as_tensor(origin_coordinate, dtype=torch.float, device=self.device)
 
@@ -274,7 +274,7 @@ class CenterOfMassOriginModel(AutoSerialize):
                 align_corners=True,
             )
 
-        self.shifted_tensor = shifted_tensor_3d.view(self.tensor.shape)
+        self.shifted_tensor = shifted_tensor_3d.reshape(self.tensor.shape)
         return self
 
     @property
